@@ -16,10 +16,12 @@ use kanata_state_machine::oskbd::{KeyEvent, KeyValue};
 use kanata_state_machine::Kanata;
 
 // ---------------------------------------------------------------- key universe (fixed conventions)
-const TYPED: [(u16, &str); 22] = [
+const TYPED: [(u16, &str); 23] = [
     (30, "a"), (48, "b"), (46, "c"), (32, "d"), (18, "e"), (33, "f"), (34, "g"), (35, "h"), (23, "i"),
     (36, "j"), (45, "x"), (21, "y"), (44, "z"), (57, "spc"), (42, "lsft"), (54, "rsft"), (29, "lctl"),
     (97, "rctl"), (56, "lalt"), (100, "ralt"), (125, "lmet"), (126, "rmet"),
+    // a reserved no-op key (never sent to the OS): only the (R4) family types it
+    (676, "nop0"),
 ];
 const PLAIN: [u16; 14] = [30, 48, 46, 32, 18, 33, 34, 35, 23, 36, 45, 21, 44, 57];
 const MODS: [(u16, &str); 9] = [
@@ -731,6 +733,111 @@ pub fn gen(tier: &str, seed: u64) -> Vec<String> {
     let og = opts_grid(&mut r, true);
     for o in og {
         histories_for(&mut r, &t_overlap, &o, true, &mut lines);
+    }
+    // (R3) completion of an overlap group by RELEASING its keys (the all-keys-released check of
+    // handle_keystate_changes finding a value: `HasValue => do_successful_sequence_termination(..,
+    // Overlap)`): this needs the plain reading of the typed keys to stay a proper prefix of another
+    // sequence, so that the press logic neither completes nor abandons - O-(a b) next to (a b c).
+    // And a second overlap group begun while the first is still held (do_sequence_press_logic:
+    // "try ending the overlapping and push overlapping seq again" succeeding) - (O-(c d) O-(f g)),
+    // (O-(c d) f) typed without letting go. Every short history over the keys involved.
+    {
+        fn all_hists(keys: &[u16], n: usize, gap: u32, down: &mut Vec<u16>, cur: &mut Vec<Ev>, out: &mut Vec<Vec<Ev>>) {
+            if n == 0 {
+                let mut h = cur.clone();
+                for k in down.iter().rev() {
+                    h.extend([Ev::R(*k), Ev::T(gap)]);
+                }
+                out.push(h);
+                return;
+            }
+            for k in keys {
+                if let Some(pos) = down.iter().position(|x| x == k) {
+                    down.remove(pos);
+                    cur.extend([Ev::R(*k), Ev::T(gap)]);
+                    all_hists(keys, n - 1, gap, down, cur, out);
+                    cur.truncate(cur.len() - 2);
+                    down.insert(pos, *k);
+                } else {
+                    down.push(*k);
+                    cur.extend([Ev::P(*k), Ev::T(gap)]);
+                    all_hists(keys, n - 1, gap, down, cur, out);
+                    cur.truncate(cur.len() - 2);
+                    down.pop();
+                }
+            }
+        }
+        let t_rel: Table = vec![(0, vec![ov(30, 48)]), (1, vec![Item::Key(30), Item::Key(48), Item::Key(46)])];
+        let t_two: Table = vec![
+            (0, vec![ov(46, 32), ov(33, 34)]),
+            (1, vec![ov(46, 32), Item::Key(33)]),
+            (2, vec![Item::Key(46), Item::Key(32), Item::Key(33), Item::Key(33)]),
+        ];
+        let t_mod: Table = vec![(0, vec![ov(46, 32), Item::Key(33)])];
+        for (t, keys, lens) in [(&t_rel, vec![30u16, 48, 46], vec![2usize, 3, 4]), (&t_two, vec![46u16, 32, 33, 34], vec![3usize, 4])] {
+            for mode in 0..3u8 {
+                for ao in [false, true] {
+                    if ao && mode != 0 && !thorough {
+                        continue;
+                    }
+                    let o = Opts { mode, timeout: 20, always_on: ao, modcancel: mode != 1, lmode: mode, lt: 20 };
+                    // a modifier held since before the leader key: every typed key carries its bit in
+                    // the plain reading, which is then invalid, while the overlap reading (bits
+                    // stripped) goes on - with sequence-backtrack-modcancel no the plain reading is
+                    // refilled from an overlap reading that ends in an unmodified key
+                    if !ao && keys.len() == 4 {
+                        let o2 = Opts { modcancel: mode == 2, ..o };
+                        for m in [42u16, 100] {
+                            let mut hs = vec![];
+                            all_hists(&keys[..3], 3, 2, &mut vec![], &mut vec![], &mut hs);
+                            for h in hs {
+                                let mut h2 = vec![Ev::P(m), Ev::T(2)];
+                                h2.extend(leader_tap(2));
+                                h2.extend(h);
+                                h2.extend([Ev::R(m), Ev::T(60)]);
+                                lines.push(r_line(&o2, t, &h2));
+                                // the same with (O-(c d) f) alone, so that f has no overlap reading
+                                lines.push(r_line(&o2, &t_mod, &h2));
+                            }
+                        }
+                    }
+                    for n in &lens {
+                        let mut hs = vec![];
+                        all_hists(&keys, *n, 2, &mut vec![], &mut vec![], &mut hs);
+                        for mut h in hs {
+                            if !ao {
+                                let mut h2 = leader_tap(2);
+                                h2.append(&mut h);
+                                h = h2;
+                            }
+                            h.push(Ev::T(60));
+                            lines.push(r_line(&o, t, &h));
+                        }
+                    }
+                }
+            }
+        }
+    }
+    // (R4) a reserved no-op key (nop0, inside the output range kanata never sends) as a member of
+    // sequences: it is pushed into the sequence like any key, its press is not sent in
+    // visible-backspaced mode and no backspace is typed for it on completion
+    // (do_successful_sequence_termination: the KEY_IGNORE_MIN..=KEY_IGNORE_MAX arm); on a timeout in
+    // hidden-delay-type mode cancel_sequence replays it through press_key, which drops it
+    {
+        let nop = 676u16;
+        let tables: Vec<Table> = vec![
+            vec![(0, vec![Item::Key(nop), Item::Key(30)]), (1, vec![Item::Key(30), Item::Key(nop), Item::Key(48)])],
+            vec![(0, vec![Item::Key(30), Item::Key(nop)]), (1, vec![ov(nop, 48)]), (2, vec![Item::Chord(vec![42], nop)])],
+        ];
+        for t in &tables {
+            for o in opts_grid(&mut r, true) {
+                histories_for(&mut r, t, &o, true, &mut lines);
+                for _ in 0..4 {
+                    let h = random_history(&mut r, t, &o);
+                    lines.push(r_line(&o, t, &h));
+                }
+            }
+        }
     }
     lines
 }
